@@ -34,7 +34,9 @@ import pyairtouch.at5.comms.xC032_ac_timer_ctrl as tc5
 import pyairtouch.at5.comms.xC033_ac_timer_status as ts5
 
 _WORDS = ["Living", "Küche", "Büro", "寝室", "Zone", "Bed 1", "A", "", "naïve", "Ω", "Kids🙂",
-          "Master Bedroom", "Up-stairs", "x" * 16, "é" * 8]
+          "Master Bedroom", "Up-stairs", "x" * 16, "é" * 8,
+          # text whose bytes look like framing: runs of 0x55 (the frame prefix byte)
+          "UUU", "UUUU", "U" * 16, "aUUUb UUU", "UU"]
 
 
 def name(rnd, max_bytes):
@@ -43,7 +45,7 @@ def name(rnd, max_bytes):
     if rnd.random() < 0.5:
         s = rnd.choice(_WORDS)
     else:
-        s = "".join(rnd.choice("abcXYZ 019-_äÖß€漢🙂") for _ in range(rnd.randint(0, max_bytes)))
+        s = "".join(rnd.choice("abcXYZ 019-_äÖß€漢🙂UUU") for _ in range(rnd.randint(0, max_bytes)))
     while len(s.encode("utf-8")) > max_bytes:
         s = s[:-1]
     return s
